@@ -55,6 +55,12 @@ class Ctx:
                     "%d call site(s) whose callee cannot be named statically (table-driven or higher-order dispatch): e.g. %s -- "
                     "the program is outside the fragment this analysis resolves; no verdict" % (
                         len(ex), "; ".join("%s %s `%s`" % x for x in ex[:3])))
+            coded = _coded_dispatch(self.repo, eng)
+            if coded:
+                raise AnalysisError(
+                    "%d branch(es) of the calc layer select the operand pair by comparing computed integer / string codes (e.g. %s) "
+                    "-- which branch runs for which operand types is not decidable by type inference; the program is outside the "
+                    "fragment this analysis resolves; no verdict" % (len(coded), "; ".join(coded[:3])))
             self._types = eng
         return self._types
 
@@ -86,6 +92,51 @@ class Ctx:
                 "%s: only %d %s found, at least %d were confirmed on the reference tree -- "
                 "the rule would pass vacuously" % (rule, got, what, expected_min)
             )
+
+
+
+def _coded_dispatch(repo, eng):
+    """`if kind_x == _POINT and kind_y == _LINE:` -- a test made only of ==/!= between plain names / int or str constants of
+    number / string type, in a module-level function of the calc package, that the type inference leaves undecided (both
+    outcomes feasible in one context) and whose branches call package functions: a dispatch on computed kind codes."""
+    import ast as _ast
+    from .model import walk_local
+
+    def atom_ok(fi, bound, a):
+        if isinstance(a, _ast.BoolOp):
+            return all(atom_ok(fi, bound, v) for v in a.values)
+        if isinstance(a, _ast.UnaryOp) and isinstance(a.op, _ast.Not):
+            return atom_ok(fi, bound, a.operand)
+        if not (isinstance(a, _ast.Compare) and len(a.ops) == 1 and isinstance(a.ops[0], (_ast.Eq, _ast.NotEq))):
+            return False
+        sides = [a.left, a.comparators[0]]
+        for x in sides:
+            if isinstance(x, _ast.Constant) and isinstance(x.value, (int, str)) and not isinstance(x.value, bool):
+                continue
+            if isinstance(x, _ast.Name):
+                tags = eng.ctx_node_types.get((fi.qual, bound, id(x)), ())
+                if tags and all((isinstance(t, tuple) and t and t[0] == "Unknown") or (not isinstance(t, tuple) and str(t) in ("num", "str", "None"))
+                                for t in tags):
+                    continue
+            return False
+        return any(isinstance(x, _ast.Name) and x.id not in fi.params for x in sides)
+
+    out = []
+    for fi in repo.functions(include_visualization=False):
+        if fi.cls is not None or ".calc." not in "." + fi.module.name + ".":
+            continue
+        for st in walk_local(fi.node):
+            if not isinstance(st, _ast.If):
+                continue
+            calls = [c for b_ in (st.body, st.orelse) for s_ in b_ for c in _ast.walk(s_)
+                     if isinstance(c, _ast.Call) and eng.call_targets.get((fi.qual, id(c)))]
+            if not calls:
+                continue
+            for bound, sm in eng.summaries_of(fi):
+                if (id(st), True) in sm.branches and (id(st), False) in sm.branches and atom_ok(fi, bound, st.test):
+                    out.append("%s `%s`" % (fi.where(st), _ast.unparse(st.test)[:50]))
+                    break
+    return out
 
 
 def run_property(prop: str, repo_root: str, tier: str = "quick", ctx: Ctx = None) -> Result:
